@@ -21,14 +21,27 @@ CONFIGS = {
                          ("SpeakerMC_bgpfault.cfg", "edges", None), ("SpeakerMC_bgpfault2.cfg", "edges", 100000),
                          ("SpeakerMC_bgp3.cfg", "edges", 100000),
                          ("SpeakerMC_bgp_sim.cfg", "sim", None)]},
-    "C09": {"quick": [("SpeakerMC_conv.cfg", "edges", 4000), ("SpeakerMC_convml.cfg", "edges", 3000),
+    "C09": {"quick": [("SpeakerMC_conv.cfg", "edges", 3000), ("SpeakerMC_convml.cfg", "edges", 2500),
                       ("SpeakerMC_convdual.cfg", "edges", 3000), ("SpeakerMC_convflap.cfg", "edges", None),
-                      ("SpeakerMC_convign.cfg", "edges", None), ("SpeakerMC_conv_sim.cfg", "sim", None)],
+                      ("SpeakerMC_convign.cfg", "edges", None), ("SpeakerMC_convboth.cfg", "edges", None),
+                      ("SpeakerMC_convscope.cfg", "edges", None), ("SpeakerMC_convv6first.cfg", "edges", None),
+                      ("SpeakerMC_conv_sim.cfg", "sim", None)],
             "thorough": [("SpeakerMC_conv.cfg", "edges", None), ("SpeakerMC_convml.cfg", "edges", None),
                          ("SpeakerMC_convdual.cfg", "edges", None), ("SpeakerMC_convflap.cfg", "edges", None),
-                         ("SpeakerMC_convign.cfg", "edges", None), ("SpeakerMC_conv3.cfg", "edges", 100000),
+                         ("SpeakerMC_convign.cfg", "edges", None), ("SpeakerMC_convboth.cfg", "edges", None),
+                         ("SpeakerMC_convscope.cfg", "edges", None), ("SpeakerMC_convv6first.cfg", "edges", None),
+                         ("SpeakerMC_conv3.cfg", "edges", 100000),
                          ("SpeakerMC_conv_sim.cfg", "sim", None), ("SpeakerMC_convml_sim.cfg", "sim", None),
                          ("SpeakerMC_convign_sim.cfg", "sim", None)]},
+}
+# side entry (run_side): small configurations whose observations also decide C13 / C10 statements
+SIDE_CONFIGS = {
+    "C13": {"quick": [("SpeakerMC_convscope.cfg", "edges", None), ("SpeakerMC_convv6first.cfg", "edges", None)],
+            "thorough": [("SpeakerMC_convscope.cfg", "edges", None), ("SpeakerMC_convv6first.cfg", "edges", None),
+                         ("SpeakerMC_convboth.cfg", "edges", None), ("SpeakerMC_convdual.cfg", "edges", None)]},
+    "C10": {"quick": [("SpeakerMC_convign.cfg", "edges", 4000), ("SpeakerMC_bgpflap.cfg", "edges", None)],
+            "thorough": [("SpeakerMC_convign.cfg", "edges", None), ("SpeakerMC_bgpflap.cfg", "edges", None),
+                         ("SpeakerMC_bgp.cfg", "edges", 30000)]},
 }
 SIM = {"quick": {"num": 250, "depth": 30}, "thorough": {"num": 3000, "depth": 40}}
 
@@ -273,9 +286,18 @@ def fault_origin(walk_obs, k):
     return "none"
 
 
-def signature(name, walk_obs, k):
-    """Stable description of a failure, computed from the observations only (never decides)."""
+def signature(name, walk_obs, k, fm=()):
+    """Stable description of a failure, computed from the observations only (never decides);
+    fm = how the judge saw the started fresh speaker differ from the specification's Fresh."""
     o = walk_obs[k]
+    if name in ("C13.FreshScope", "C13.FreshSet", "C10.FreshBGP"):
+        # the fresh speaker that was started does not announce what the specification's Fresh says
+        same = announced_view(o) == announced_view(o["fresh"])
+        return "%s|old=%s" % (name, "same-as-fresh" if same else "differs-from-fresh")
+    if name == "C09.FreshModel":
+        same = sorted(o["annL"]) == sorted(o["fresh"]["annL"]) and sorted(o["annB"]) == sorted(o["fresh"]["annB"]) \
+            and announced_view(o) == announced_view(o["fresh"])
+        return "%s|diff=%s|old=%s" % (name, ",".join(sorted(fm)) or "none", "same-as-fresh" if same else "differs-from-fresh")
     if name.startswith("C05.") and fault_origin(walk_obs, k) != "none":
         kind = ""
         if name == "C05.ReportedPeers":
@@ -314,23 +336,23 @@ def signature(name, walk_obs, k):
 
 
 def classify(fails_of_line):
-    """C09: a violation needs the old speaker to differ from BOTH the specification's Fresh and the
-    fresh speaker that was actually started; the other combinations are model drift."""
+    """C09 is literal: a violation is a quiescent observation at which the old speaker does not
+    announce what the fresh speaker that was actually started on the same final state announces
+    (the judge's C09.DiffersFromObservedFresh; reported under the name C09.Converged).  Differences
+    to the specification's Fresh that the old and the started fresh speaker share are model drift
+    for C09 (run_side reports them under C13 / C10)."""
     names = set(fails_of_line)
     out, drift = set(), set()
     for n in names:
-        if n == "C09.Converged":
-            if "C09.DiffersFromObservedFresh" in names:
-                out.add(n)
-            else:
-                drift.add("Converged-but-equal-to-observed-fresh")
+        if n == "C09.DiffersFromObservedFresh":
+            out.add("C09.Converged")
+        elif n == "C09.Converged":
+            if "C09.DiffersFromObservedFresh" not in names:
+                drift.add("equal-to-started-fresh-but-not-to-spec-Fresh")
         elif n == "C09.FreshModel":
-            drift.add("observed-fresh-differs-from-spec-Fresh")
+            drift.add("started-fresh-differs-from-spec-Fresh")
         elif n == "C09.Drains":
             drift.add("walk-did-not-drain")
-        elif n == "C09.DiffersFromObservedFresh":
-            if "C09.Converged" not in names:
-                drift.add("differs-from-observed-fresh-only")
         else:
             out.add(n)
     return out, drift
@@ -344,27 +366,41 @@ def by_walk(obs_path):
     return byw
 
 
+SIDE_NAMES = {"C13": {"l2-scope": "C13.FreshScope", "l2-set": "C13.FreshSet"}, "C10": {"bgp": "C10.FreshBGP"}}
+
+
+def extract(chk, f, account=True):
+    """The failures of one judged line that belong to chk.prop: list of (name, fm).  For C05 / C09
+    the predicates of the property itself (drift is counted once, when account is set).  For the side
+    properties C13 / C10 the difference between the fresh speaker that was started and the
+    specification's Fresh, by kind (layer-2 interface scope / layer-2 set -> C13, BGP routes -> C10)."""
+    fm = tuple(f.get("fm", ()))
+    if chk.prop in SIDE_NAMES:
+        if "C09.FreshModel" not in f["fails"]:
+            return []
+        return [(SIDE_NAMES[chk.prop][k], fm) for k in sorted(fm) if k in SIDE_NAMES[chk.prop]]
+    real, drift = classify(f["fails"])
+    if account and chk.prop == "C09":
+        for d in drift:
+            chk.cov["drift"] += 1
+            if len(chk.notes) < 30:
+                chk.notes.append("DRIFT: %s at %s obs %d" % (d, f["w"], f["step"]))
+    return [(name, fm) for name in sorted(real) if name.startswith(chk.prop + ".")]
+
+
 def collect(chk, fails, byw):
-    """(walk, index, predicate) triples of this property, plus drift notes."""
-    prefix = chk.prop + "."
+    """(walk, index, predicate, fm) tuples of this property, plus drift notes."""
     mine = []
     for f in fails:
-        real, drift = classify(f["fails"])
-        for d in drift:
-            if chk.prop == "C09":
-                chk.cov["drift"] += 1
-                if len(chk.notes) < 30:
-                    chk.notes.append("DRIFT: %s at %s obs %d" % (d, f["w"], f["step"]))
-        for name in sorted(real):
-            if name.startswith(prefix):
-                mine.append((f["w"], f["step"], name))
+        for name, fm in extract(chk, f):
+            mine.append((f["w"], f["step"], name, fm))
     return mine
 
 
 def confirm(chk, mine, steps, inits, cat_path, byw):
     reps = {}
-    for w, k, name in sorted(mine, key=lambda x: (x[2], len(byw[x[0]]), x[0], x[1])):
-        reps.setdefault(signature(name, byw[w], k), []).append((w, k, name))
+    for w, k, name, fm in sorted(mine, key=lambda x: (x[2], len(byw[x[0]]), x[0], x[1])):
+        reps.setdefault(signature(name, byw[w], k, fm), []).append((w, k, name))
     sel = {}
     for sig, lst in reps.items():
         for w, k, name in lst[:3]:
@@ -379,9 +415,8 @@ def confirm(chk, mine, steps, inits, cat_path, byw):
     byw2 = by_walk(obs_path)
     again = set()
     for f in fails2:
-        real, _ = classify(f["fails"])
-        for name in real:
-            again.add((f["w"], name, signature(name, byw2[f["w"]], f["step"])))
+        for name, fm in extract(chk, f, account=False):
+            again.add((f["w"], name, signature(name, byw2[f["w"]], f["step"], fm)))
     for sig, lst in sorted(reps.items()):
         done = False
         for w, k, name in lst[:3]:
@@ -390,7 +425,8 @@ def confirm(chk, mine, steps, inits, cat_path, byw):
                 o = byw[w][k]
                 hist = [x["act"] for x in byw[w][1:k + 1] if not x["skipped"]]
                 chk.fail(sig, name, detail={"observation": slim(o), "history": hist, "occurrences": len(lst)},
-                         scenario={"family": "speaker", "init": inits[n], "steps": steps[n]})
+                         scenario=dict({"family": "speaker", "init": inits[n], "steps": steps[n]},
+                                       **({"side_family": "fam_speaker"} if chk.prop in SIDE_NAMES else {})))
                 done = True
                 break
         if not done:
@@ -427,6 +463,7 @@ def run_cfg(chk, cfg, mode, sample, cat_path):
     if not hasattr(chk, "spk_nontrivial"):
         chk.spk_nontrivial = set()      # over all configurations of the run: a case counts once
     nontrivial, quiescent, skipped, settled = chk.spk_nontrivial, 0, 0, 0
+    nt_before = len(nontrivial)
     for w, ol in byw.items():
         for k in range(1, len(ol)):
             a, b = ol[k - 1], ol[k]
@@ -440,10 +477,10 @@ def run_cfg(chk, cfg, mode, sample, cat_path):
                                                        b["act"]]).encode()).digest())
     chk.cov["traces_validated_against_impl"] += len(steps)
     chk.cov["evaluations"] += nlines
-    chk.cov["distinct_nontrivial"] = len(nontrivial)
+    chk.cov["distinct_nontrivial"] += len(nontrivial) - nt_before
     for key, val in (("quiescent_observations", quiescent), ("settled_observations", settled), ("skipped_steps", skipped)):
         chk.cov[key] = chk.cov.get(key, 0) + val
-    if mode == "edges":
+    if mode == "edges" and chk.prop not in SIDE_NAMES:
         chk.cov["exhaustive"] = chk.cov.get("exhaustive", True) and exhaustive
     if steps and len(chk.cov["samples"]) < 2:
         chk.cov["samples"].append({"cfg": cfg, "walk": steps[0][:8], "observations": [slim(o) for o in byw.get("w0", [])[:3]]})
@@ -470,10 +507,34 @@ def run(chk):
         "the reference is the speaker's own announced set / addresses and the node sets of the configuration it holds",
         "nodes are never deleted; endpoints have distinct addresses; handlers run one at a time (a re-sync pass is not interleaved "
         "with node / configuration handlers); sessions never fail to start and Set never fails",
+        "C09 is literal: at quiescence the old speaker must announce what a fresh real speaker started on the same final state "
+        "(all nodes, configuration, initial re-sync, initial service events) announces; differences of both to the specification's "
+        "Fresh are DRIFT for C09 and are reported by run_side under C13 (layer-2 scope / set) and C10 (BGP)",
         "the hash order of the two node names per address is observed from the real layer2Controller by a two-node duel",
         "aggregation lengths are 0, the 4-bit field boundary lengths (22..26 / 62..66) and the full length; length 0 needs a /0 pool "
         "(configuration validation)",
     ]
+
+
+def run_side(chk):
+    """Side entry, called by bin/check after the property's own family: the speaker observations
+    also decide
+      C13 - a node answers for an address on an interface iff a Service it announces holds the
+            address with an advertisement covering that interface: the layer-2 (service, address,
+            interface scope) set of a freshly started real speaker must be the specification's Fresh
+            (C13.FreshScope: same addresses, other scope; C13.FreshSet: other addresses);
+      C10 - the node announces over BGP iff eligible: the per-peer routes of a freshly started real
+            speaker must be the specification's Fresh (C10.FreshBGP).
+    Counters are added to what the own family measured."""
+    if chk.prop not in SIDE_CONFIGS:
+        return
+    cat_path = catalog_dump(chk)
+    for cfg, mode, sample in SIDE_CONFIGS[chk.prop][chk.tier]:
+        run_cfg(chk, cfg, mode, sample, cat_path)
+    rule = ("speaker side run: at every quiescent observation of the walks of the small SpeakerMC configurations a fresh real "
+            "speaker is started on the final cluster and its announcements are compared with the specification's Fresh "
+            "(%s)" % ", ".join(sorted(SIDE_NAMES[chk.prop].values())))
+    chk.cov["rule"] = (chk.cov["rule"] + " || " if chk.cov["rule"] else "") + rule
 
 
 def replay(chk, path):
@@ -490,8 +551,8 @@ def replay(chk, path):
     chk.cov["traces_validated_against_impl"] = 1
     chk.cov["samples"].append(sc["steps"][:8])
     seen = set()
-    for w, k, name in collect(chk, fails, byw):
-        sig = signature(name, byw[w], k)
+    for w, k, name, fm in collect(chk, fails, byw):
+        sig = signature(name, byw[w], k, fm)
         if sig not in seen:
             seen.add(sig)
             chk.fail(sig, name, detail={"observation": slim(byw[w][k])}, scenario=sc)
